@@ -176,7 +176,7 @@ func runC06On(c c06Case, o gwOpts, tgt gwc.Target) *Violation {
 			return viol("c06/setup", "send failed during set-up: %v", err)
 		}
 	}
-	host := w.L["A"].WaitAccept(snap["A"]+1, 10*time.Second)
+	host := w.L["A"].WaitAccept(snap["A"]+1, 30*time.Second)
 	if host == nil {
 		return viol("c06/setup", "no backend connection after a valid set-up; got %d units", len(conn.Units()))
 	}
@@ -328,7 +328,7 @@ func runC06On(c c06Case, o gwOpts, tgt gwc.Target) *Violation {
 	close(hq)
 	herr := <-hdone
 	// host -> client: wait until the client has everything the host wrote (then the relay goroutine is idle)
-	got, perr, ended := pollDataPayload(conn, len(hostStream), 10*time.Second)
+	got, perr, ended := pollDataPayload(conn, len(hostStream), 30*time.Second)
 	if perr != nil {
 		return viol("c06/client-packet-malformed", "a packet sent to the client is not well-formed: %v", perr)
 	}
@@ -350,10 +350,12 @@ func runC06On(c c06Case, o gwOpts, tgt gwc.Target) *Violation {
 		conn.Send(tsgu.CloseChannel())
 	}
 	if c.Kind == "ws" {
-		conn.WaitEOF(10 * time.Second)
+		conn.WaitEOF(30 * time.Second)
 	} else {
-		conn.WaitInClosed(10 * time.Second)
+		conn.WaitInClosed(30 * time.Second)
 	}
+	// the tunnel has ended: the gateway closes the host connection, and what it wrote before is all there is
+	host.WaitEOF(30 * time.Second)
 	host.Settle()
 	rx := host.Received()
 	for _, cd := range cands {
@@ -471,7 +473,7 @@ func runC06Stall(c c06Stall, o gwOpts, tgt gwc.Target) *Violation {
 			return viol("c06/setup", "send failed during set-up: %v", err)
 		}
 	}
-	host := w.L["A"].WaitAccept(snap["A"]+1, 10*time.Second)
+	host := w.L["A"].WaitAccept(snap["A"]+1, 30*time.Second)
 	if host == nil {
 		return viol("c06/setup", "no backend connection after a valid set-up; got %d units", len(conn.Units()))
 	}
@@ -506,7 +508,7 @@ func runC06Stall(c c06Stall, o gwOpts, tgt gwc.Target) *Violation {
 			for _, u := range setup {
 				oc.Send(u)
 			}
-			oh := w.L["A"].WaitAccept(before+1, 10*time.Second)
+			oh := w.L["A"].WaitAccept(before+1, 30*time.Second)
 			if oh == nil {
 				return viol("c06/setup", "no backend connection for a further tunnel")
 			}
@@ -596,7 +598,7 @@ func runC06Stall(c c06Stall, o gwOpts, tgt gwc.Target) *Violation {
 		if !bytes.Equal(got, want) {
 			return viol("c06/stall/host-to-client", "the host wrote %d bytes, the client received %d (first difference at %d, tunnel ended=%v) after sending %v while it was not reading (%s)", total, len(got), firstDiff(got, want), ended, c.During, desc)
 		}
-		if !host.WaitBytes(len(c2h), 10*time.Second) || !bytes.Equal(host.Received(), c2h) {
+		if !host.WaitBytes(len(c2h), 30*time.Second) || !bytes.Equal(host.Received(), c2h) {
 			return viol("c06/stall/client-to-host", "the client sent %d payload bytes during the stall, the host received %d (%s)", len(c2h), len(host.Received()), desc)
 		}
 		return nil
